@@ -16,7 +16,7 @@ mod oracle;
 pub const OP_NAMES: &[&str] = &[
     "NewClient", "TickClient", "TickServer", "Deliver", "Drop", "DropAll", "DeliverAll", "GenPayload", "ClientDisconnect", "ServerDisconnect",
     "SetMaxClients", "Junk", "Mutate", "Replay", "ForgeRequest", "ForgeResponse", "ForgeSession", "TamperEnum", "RestartServer", "Teleport",
-    "TokenSurgery", "CrashClient", "GenBurst", "CrossResponse", "StaleHandshake", "FloodThenSteal", "ForgeExpiry", "Reframe", "StaleResponse",
+    "TokenSurgery", "CrashClient", "GenBurst", "CrossResponse", "StaleHandshake", "FloodThenSteal", "ForgeExpiry", "Reframe", "StaleResponse", "TagSquat",
 ];
 pub const K_NEWCLIENT: u8 = 0;
 pub const K_TICKCLIENT: u8 = 1;
@@ -47,6 +47,7 @@ pub const K_FLOODSTEAL: u8 = 25;
 pub const K_FORGEEXPIRY: u8 = 26;
 pub const K_REFRAME: u8 = 27;
 pub const K_STALERESP: u8 = 28;
+pub const K_TAGSQUAT: u8 = 29;
 
 pub const T_REQUEST: u8 = 0;
 pub const T_DENIED: u8 = 1;
@@ -71,6 +72,7 @@ pub struct TokenRec {
     pub dead_leading: usize,
     pub first_addr: Option<SocketAddr>, // address it was first presented from (model of the token-entry table)
     pub presented: Vec<(SocketAddr, u64)>, // (from, server ms) of every unmodified presentation that the server processed
+    pub inc_presented: Vec<(SocketAddr, u32)>, // (from, server incarnation) of the same presentations
     pub sv_attempt: u32,                // server-side attempt/session counter (C17 scope)
     pub issued_for_incarnation: u32,
     pub ever_connected: bool,
@@ -486,6 +488,7 @@ impl WorldB {
             dead_leading,
             first_addr: None,
             presented: Vec::new(),
+            inc_presented: Vec::new(),
             sv_attempt: 0,
             issued_for_incarnation: self.incarnation,
             adv_owned: false,
@@ -590,7 +593,7 @@ impl World for WorldB {
     }
     fn panic_props(&self, op: Option<&Op>) -> Vec<String> {
         let mut v = vec!["C07".to_string()];
-        let hostile_op = op.map(|o| matches!(o.k, K_JUNK | K_MUTATE | K_REPLAY | K_FORGEREQ | K_FORGERESP | K_FORGESESS | K_TAMPER | K_TOKENSURGERY | K_FORGEEXPIRY | K_REFRAME | K_STALERESP)).unwrap_or(false);
+        let hostile_op = op.map(|o| matches!(o.k, K_JUNK | K_MUTATE | K_REPLAY | K_FORGEREQ | K_FORGERESP | K_FORGESESS | K_TAMPER | K_TOKENSURGERY | K_FORGEEXPIRY | K_REFRAME | K_STALERESP | K_TAGSQUAT)).unwrap_or(false);
         if !hostile_op {
             for p in ["C04", "C05", "C10", "C17", "C18", "C19"] {
                 v.push(p.to_string());
